@@ -4,12 +4,12 @@
 (* FuelVM.  Step events of exactly modelled instructions must equal the spec's  *)
 (* outcome; every Step, modelled or not, must satisfy the universal obligations.*)
 EXTENDS FuelVM, TraceIO
-VARIABLES l, vm
-trVars == <<l, vm>>
+VARIABLES l, vm, refs      \* refs: run id -> [vis: <<contract, pc - is>> per executed step, fin: index of its Final event]
+trVars == <<l, vm, refs>>
 NoVm == [regs |-> <<>>, mem |-> <<>>, slen |-> 0, env |-> <<>>, frames |-> <<>>, glimit |-> "0", txlen |-> 0, done |-> FALSE,
          code |-> <<>>, cbal |-> <<>>, inputs |-> {}, nrc |-> 0, opv |-> <<>>, outs |-> <<>>,
          led |-> [mint |-> <<>>, burn |-> <<>>, msg |-> "0"], bal0 |-> <<>>, fee |-> <<>>, outs0 |-> <<>>, cbal0 |-> <<>>, fin |-> <<>>]
-TrInit == l = 1 /\ vm = NoVm
+TrInit == l = 1 /\ vm = NoVm /\ refs = <<>>
 e == Rec[l]
 
 Strip(r) == [f \in DOMAIN r \ {"enc"} |-> r[f]]
@@ -39,6 +39,7 @@ ObservedMem(v)  == ApplyWrites(v.mem, e.mem, 1)
 TSeg ==
     /\ IsEv(l, "Seg")
     /\ vm' = NoVm
+    /\ refs' = <<>>
 TInit ==
     /\ IsEv(l, "Init")
     /\ vm' = [regs |-> [r \in 0..63 |-> e.regs[r + 1]], mem |-> WriteBytes(<<>>, 0, e.stack), slen |-> BLen(e.stack), env |-> e.env, frames |-> <<>>,
@@ -127,10 +128,15 @@ ScriptResultOk(v, oregs, result) ==
     /\ last.gas_used = BN!Sub(v.glimit, oregs[GGAS])                       \* gas used = limit - remaining global gas
     /\ Cardinality({i \in 1..Len(rcs) : rcs[i].kind = "ScriptResult"}) = 1
 
+Visit(v) == <<CurContract(v), BN!Sub(R(v, PC), R(v, IS))>>
 TStepRun ==
     /\ IsEv(l, "Step")
     /\ e.mode = "run"
     /\ ~vm.done
+    /\ refs' = LET k == ToString(e.run)
+                   old == IF k \in DOMAIN refs THEN refs[k] ELSE [vis |-> <<>>, fin |-> 0] IN
+               \* the instruction at this location is about to execute (a failing fetch is not an arrival)
+               IF FetchPanics(vm) = {} THEN (k :> [old EXCEPT !.vis = Append(@, Visit(vm))]) @@ refs ELSE refs
     /\ LET v     == vm
            oregs == ObservedRegs(v)
            omem  == ObservedMem(v)
@@ -238,6 +244,9 @@ TFinal ==
                 /\ \A a \in WatchedAssets(vm) : Conserved(vm, a)                   \* C27: ledger equation on observed balances
                 /\ \A c \in DOMAIN e.post.contracts : \A a \in DOMAIN e.post.contracts[c].bal :
                       e.post.contracts[c].bal[a] = CBal(vm, c, a)))                  \* model balances = real storage
+    /\ refs' = LET k == ToString(e.run)
+                   old == IF k \in DOMAIN refs THEN refs[k] ELSE [vis |-> <<>>, fin |-> 0] IN
+               (k :> [old EXCEPT !.fin = l]) @@ refs
     /\ UNCHANGED vm
 
 \* C28: the in-memory client leaves contract storage exactly as it was when the transaction reverted or panicked
@@ -256,6 +265,44 @@ TRunSummary ==
        ELSE e.tail[1].kind = "Panic" /\ e.tail[1].reason = "TooManyReceipts" /\ e.tail[2].result = "Panic" /\ e.logs = e.nrc - 2
     /\ UNCHANGED vm
 
-TrNext == (TSeg \/ TInit \/ TPoke \/ TStepExec \/ TStepRun \/ TFinal \/ TClientTx \/ TRunSummary) /\ l' = l + 1
+(***************************************************************************)
+(* Replicas (C31 determinism / instance reuse, C32 debugger transparency). *)
+(* The reference run is single-stepped on a fresh interpreter and fully    *)
+(* validated above; a replica executes the SAME ready transaction against  *)
+(* equal storage in another way and must end in the same final state.      *)
+(***************************************************************************)
+SameFinal(f, r) ==
+    /\ f.state = r.state
+    /\ (Has(r, "val") => (Has(f, "val") /\ f.val = r.val))
+    /\ (Has(r, "digest") => (Has(f, "digest") /\ f.digest = r.digest))
+    /\ f.rc_all = r.rc_all                         \* receipts, byte for byte
+    /\ f.receipts_root = r.receipts_root
+    /\ f.tx_after = r.tx_after                     \* the output transaction
+    /\ f.nrc = r.nrc
+    /\ (Has(r, "post") => (Has(f, "post") /\ f.post = r.post))   \* storage (slots, balances, code) after the run
+RefFinal(run) == Rec[refs[ToString(run)].fin]
+TReplica ==
+    /\ IsEv(l, "Replica")
+    /\ ToString(e.of) \in DOMAIN refs
+    /\ SameFinal(e.final, RefFinal(e.of))
+    /\ UNCHANGED <<vm, refs>>
+TReplicaReceipts ==
+    /\ IsEv(l, "ReplicaReceipts")
+    /\ ToString(e.of) \in DOMAIN refs
+    /\ e.rc_all = RefFinal(e.of).rc_all
+    /\ UNCHANGED <<vm, refs>>
+\* a run with breakpoints, resumed after every debug event: same final state, and the debug events are exactly the
+\* arrivals of the reference run at breakpoint locations — once per arrival, in order (hence before the instruction executes)
+TBpRun ==
+    /\ IsEv(l, "BpRun")
+    /\ ToString(e.of) \in DOMAIN refs
+    /\ SameFinal(e.final, RefFinal(e.of))
+    /\ LET bps == {e.bps[i] : i \in 1..Len(e.bps)}
+           vis == refs[ToString(e.of)].vis
+       IN e.breaks = SelectSeq(vis, LAMBDA x : x \in bps)
+    /\ UNCHANGED <<vm, refs>>
+
+TrNext == \/ ((TInit \/ TPoke \/ TStepExec \/ TClientTx \/ TRunSummary) /\ UNCHANGED refs /\ l' = l + 1)
+          \/ ((TSeg \/ TStepRun \/ TFinal \/ TReplica \/ TReplicaReceipts \/ TBpRun) /\ l' = l + 1)
 TrSpec == TrInit /\ [][TrNext]_trVars
 =============================================================================
